@@ -251,6 +251,9 @@ step_json_id("replaceAround", ReplaceAroundStep)
 def content_between(doc: Node, from_: int, to: int) -> bool:
     from__ = doc.resolve(from_)
     dist = to - from_
+    if dist > 0 and from__.text_offset:
+        # the range starts inside a text node: the rest of that text is content
+        return True
     depth = from__.depth
     while (
         dist > 0
